@@ -5,6 +5,7 @@ CONSTANT NTrees = 3
 CONSTANT NKw = 5
 CONSTANT WithPut = FALSE
 CONSTANT Filter = FALSE
+CONSTANT Rand = FALSE
 INIT Init
 NEXT Next
 INVARIANT CallerMapsUnchanged
